@@ -7,3 +7,4 @@ import PlcProofs.Props.C01
 #print axioms C01.mirror_statement_list_roundtrip
 #print axioms C01.mirror_library_roundtrip
 #print axioms C01.mirror_library_roundtrip_vars
+#print axioms C01.mirror_library_roundtrip_pous
